@@ -57,6 +57,7 @@ pub struct Ctx {
     pub bi: Option<multiboot2::BootInformation<'static>>,
     pub hdr: Option<multiboot2_header::Multiboot2Header<'static>>,
     pub its: HashMap<u64, It>,
+    pub ext: Option<(usize, usize)>,
 }
 
 impl Ctx {
@@ -67,6 +68,7 @@ impl Ctx {
             bi: None,
             hdr: None,
             its: HashMap::new(),
+            ext: None,
         }
     }
 
@@ -99,7 +101,35 @@ impl Ctx {
     }
 }
 
-pub fn prepare(_ctx: &mut Ctx, _case: &Value) {}
+/// Maps the case's external memory (ELF string table) at the fixed address the case names.
+pub fn prepare(ctx: &mut Ctx, case: &Value) {
+    let ext = &case["ext"];
+    if !ext.is_object() {
+        return;
+    }
+    let addr = out::arg_u64(ext, "addr") as usize;
+    let data = out::arg_bytes(ext, "data");
+    let len = 4096;
+    assert!(data.len() < len && addr % 4096 == 0);
+    unsafe {
+        // the same address is reused by every case of this worker
+        let p = libc::mmap(
+            addr as *mut _,
+            len,
+            libc::PROT_READ | libc::PROT_WRITE,
+            libc::MAP_PRIVATE | libc::MAP_ANONYMOUS | libc::MAP_FIXED,
+            -1,
+            0,
+        );
+        if p as usize != addr {
+            eprintln!("cannot map external memory at {addr:#x} (tool error)");
+            std::process::exit(3);
+        }
+        std::ptr::write_bytes(p as *mut u8, 0, len);
+        std::ptr::copy_nonoverlapping(data.as_ptr(), p as *mut u8, data.len());
+    }
+    ctx.ext = Some((addr, data.len()));
+}
 
 pub fn finish(_ctx: &mut Ctx, _f: &mut File, _run: usize) {}
 
